@@ -244,8 +244,14 @@ def run(ctx, chk):
 
     # ---- M5 syscall origin literals: every constant that flows into CStr::from_bytes_with_nul in the shm crate
     lits = []
+    compile_time_only = []
     for b in fb.bodies(common.SHM):
         if not any(fn and mir.callee_name(fn).endswith('CStr::from_bytes_with_nul') for _, _, fn in b.calls()):
+            continue
+        if b.d.get('const_fn') and b.d.get('vis') != 'Public' and not common.callers_map(fb).get(b.path):
+            # a private `const fn` no function calls: it only runs inside constant initialisers, at compile time (its panic
+            # would be a build error); what it produced is checked below, where the constants are used
+            compile_time_only.append(b.path)
             continue
         chk.saw(b)
         eng5 = common.mk_engine(fb, no_inline=lambda x: True)
@@ -272,11 +278,39 @@ def run(ctx, chk):
                     else:
                         chk.ob('C14.M5', 'origin-not-a-literal:%s' % b.path.split('::')[-1], False, ef['site'][2],
                                'CStr::from_bytes_with_nul is applied to %s, not to a literal: the unwrap() behind it can panic in a client call' % fmt(ef['args'][0])[:80])
+    if compile_time_only:
+        # origins that are constants of type &CStr (validated when the crate is built): collect them where a SyscallError is
+        # built from one
+        seen_k = set()
+        for b in fb.bodies(common.SHM):
+            for blk_i, blk in enumerate(b.blocks):
+                for st_ in blk['stmts'] + [blk['term']]:
+                    for o in _const_operands(st_):
+                        if o.get('mem_relocs') and 'CStr' in b.tystr(o['ty']):
+                            try:
+                                raw = bytes.fromhex(o['mem_relocs'][0]['bytes'])
+                            except (ValueError, KeyError, IndexError):
+                                continue
+                            if raw not in seen_k:
+                                seen_k.add(raw)
+                                lits.append((b, blk_i, raw.decode('latin-1')))
     for b, i, s in lits:
         good = s.endswith('\0') and '\0' not in s[:-1] and all(ord(c) < 128 for c in s)
         chk.ob('C14.M5', 'origin-literal:%s' % s.rstrip('\0'), good, b.where(i),
                'syscall origin literal %r is %s' % (s, 'ASCII with one trailing NUL' if good else 'NOT a valid C string'))
     chk.floor('C14.M5', 'syscall origin literals', len(lits), 3)
+
+
+def _const_operands(node):
+    """every constant operand (dict with k == 'const') inside a MIR statement / terminator record"""
+    if isinstance(node, dict):
+        if node.get('k') == 'const' and 'ty' in node:
+            yield node
+        for v in node.values():
+            yield from _const_operands(v)
+    elif isinstance(node, list):
+        for v in node:
+            yield from _const_operands(v)
 
 
 def bounded_index(b, bb):
